@@ -169,6 +169,8 @@ def run_case(ctx, base, case):
         acq, name = "acq", {"nested": "sub/deep/f", "dot": ".hidden", "temp": ".alpentempq1/f", "via_symlink": "ldir/precious", "root_file": None}.get(kind, "f")
         if kind == "locked":
             name = "f"
+        if case.get("name") and kind == "regular":
+            name = case["name"]
         rel = f"{acq}/{name}" if name else "toplevel"
         full = root / rel
         content = w.content_of(42, 23)
@@ -290,6 +292,8 @@ def run_case(ctx, base, case):
             crow_checked = [(i, "Y" if (h, wn) == ("M", "Y") else h, wn) for (i, h, wn) in copies_before]  # a suspect copy may have been verified meanwhile
             if after_counts != before_counts or len(copies_after) != len(copies_before) or any(a[2] != b[2] or (a[1] != b[1] and b[1] != "M") for a, b in zip(copies_after, copies_before)):
                 ctx.fail("C04:imported-forbidden", f"the import request for {req_path!r} ({vet}) must be refused, but the index changed: acq/file counts {before_counts}->{after_counts}, copies {copies_before}->{copies_after}", rp)
+        if vet is None and kind in ("regular", "nested") and detected is not None and fname is not None and case["register"] and not (crow and crow[0] != "N") and cr_after is None:
+            ctx.fail("C04:not-imported", f"the regular file {rel!r} (detector -> {detected!r}, registration enabled) was not imported: no copy was recorded (request completed={done})", rp)
         if vet is None and kind == "locked" and done:
             ctx.fail("C04:locked-completed", "the import request of a locked file was completed", rp)
         if not case["register"] and after_counts != before_counts:
@@ -724,6 +728,8 @@ def explore(ctx):
     n = 220 if ctx.quick() else 5000
     ran = 0
     fixed = [{"kind": "via_symlink", "link_inside": li, "det": "default", "register": True, "acq_known": ak, "file_known": False, "copy": None, "vet": None} for li in (True, False) for ak in (False, True)]
+    # only the marker at the node root is special: files of that name inside an acquisition are data
+    fixed += [{"kind": "regular", "name": nm, "det": "default", "register": True, "acq_known": False, "file_known": False, "copy": None, "vet": None} for nm in ("ALPENHORN_NODE", "sub/ALPENHORN_NODE")]
     for k in range(n + len(fixed)):
         case = fixed[k] if k < len(fixed) else gen_case(ctx.rng)
         terms, r = run_case(ctx, base, case)
